@@ -601,9 +601,15 @@ func properties() map[string]*propDef {
 							if tier == "thorough" {
 								pre = 4
 							}
-							out = append(out, item{Harness: "H_C12_sched", Cfg: []int{op, router, entry, target, pre}, Label: "interleaving exploration: mutator, router, entry, target of the concurrent request, preemption bound"})
-							if tier == "thorough" {
-								out = append(out, item{Harness: "H_C12_sched", Cfg: []int{op, router + 10, entry, target, 3}, Label: "interleaving exploration with a third thread (a second change of another kind), 3 preemptions"})
+							sops := []int{op}
+							if op == 3 {
+								sops = []int{3, 4, 5} // the interleaving harness knows two more mutators
+							}
+							for _, sop := range sops {
+								out = append(out, item{Harness: "H_C12_sched", Cfg: []int{sop, router, entry, target, pre}, Label: "interleaving exploration: mutator (Add, Remove, Route, RemoveRoute, Remove+Route on the removed service, Route adding a method to an existing path), router, entry, target of the concurrent request, preemption bound"})
+								if tier == "thorough" {
+									out = append(out, item{Harness: "H_C12_sched", Cfg: []int{sop, router + 10, entry, target, 3}, Label: "interleaving exploration with a third thread (a second change of another kind), 3 preemptions"})
+								}
 							}
 						}
 					}
